@@ -20,6 +20,8 @@ RULE = (
     "harness's yield points (every mutating audit event, a mid-copy event, every os.stat/lstat under the "
     "scratch root); exactly one writer runs at a time, so the run is a function of the schedule. A second "
     "arm forks the writers as separate processes that sleep drawn micro-delays at the same yield points. "
+    "In a third of the cases the store starts with unprotected truncated leftovers of an interrupted add under "
+    "some of the writers' object names; in a quarter all contents hash into one fan-out directory. "
     "Oracle (schedule-independent): no writer raised / reported failed ids; each writer's directory object "
     "is present with bytes == the reference listing of its manifest and every listed file present with "
     "reference-correct bytes; full store audit clean and every object protected; state rows truthful. "
@@ -38,6 +40,13 @@ ASSUMPTIONS = [
 def cases(draw, big_ok=False):
     n = draw(st.sampled_from([2, 2, 3, 3, 4]))
     content = gen.small_contents()
+    fanout = draw(st.integers(0, 3)) == 0
+    if fanout:
+        # every object lands in ONE fan-out directory of the store (md5 starts with "00"): temporary
+        # names, leftovers and final names of different writers' objects are siblings
+        from .c12 import zeros
+
+        content = st.sampled_from(["h:" + z.hex() for z in zeros()[:6]])
     base = draw(gen.trees(max_files=4, max_depth=2, content=content))
     trees = []
     for _ in range(n):
@@ -58,8 +67,13 @@ def cases(draw, big_ok=False):
         # transfer from its own (pre-populated) cache into the shared store as a remote
         "work": draw(st.sampled_from(["stage", "stage", "isave", "xfer"])),
         "hardlink": draw(st.sampled_from([False, False, True])),
-        "schedule": draw(st.lists(st.integers(0, 3), min_size=0, max_size=120)),
+        # (thread, run length) pairs flattened: long runs park the other writers across several operations
+        "schedule": [t for t, k in draw(st.lists(st.tuples(st.integers(0, 3), st.sampled_from([1, 1, 1, 2, 3, 5, 8])),
+                                                 min_size=0, max_size=80)) for _ in range(k)],
         "delays": draw(st.lists(st.integers(0, 6), min_size=4, max_size=24)),
+        # leftovers of an earlier interrupted add in the shared store: unprotected files under an object's
+        # final name holding a proper prefix of its bytes (indices into the sorted file ids of all writers)
+        "leftovers": draw(st.lists(st.integers(0, 11), max_size=3)) if draw(st.integers(0, 2)) <= fanout else [],
     }
 
 
@@ -267,6 +281,17 @@ def run_case(case, ctx):  # noqa: C901, PLR0912
         viols = []
         counters = {}
         switches = 0
+        by_oid = {}
+        for i in range(n):
+            for rel, foid in mans[i].items():
+                by_oid[foid] = flats[i][rel]
+        n_left = 0
+        for idx in case.get("leftovers") or []:
+            foid = sorted(by_oid)[idx % len(by_oid)]
+            data = by_oid[foid]
+            if data:
+                gen.write_file(os.path.join(d, "store", foid[:2], foid[2:]), data[: len(data) // 2])
+                n_left += 1
         if case["arm"] == "threads":
             shared = State(root_dir=d, tmp_dir=os.path.join(d, "tmp")) if case["shared_state"] else None
             try:
@@ -355,6 +380,10 @@ def run_case(case, ctx):  # noqa: C901, PLR0912
             cl.append("switches>=10")
         if switches >= 50:
             cl.append("switches>=50")
+        if n_left:
+            cl.append("store-has-interrupted-add-leftover")
+        if len({k[:2] for k in by_oid}) == 1 and len(by_oid) >= 2:
+            cl.append("all-objects-in-one-fan-out-dir")
         if any("big0" in t for t in case["trees"]):
             cl.append("hash-pool(>1MiB files)")
         return Result(viols, nontrivial, cl, counters)
